@@ -29,11 +29,12 @@ use zipora::hash_map::{
 use zipora::memory::{SecureMemoryPool, SecurePoolConfig};
 
 const HEADER: &str = r#"From ZV.Common Require Import Base Run.
-From ZV.C06 Require Import Model ModelGold ModelEasy ModelIdx ModelFast ModelStr.
+From ZV.C06 Require Import Model ModelGold ModelEasy ModelIdx ModelFast ModelStr ModelEasyX.
 Open Scope N_scope.
 (* kind 0: standard storage [hasher mode; initial capacity; has_final; final capacity] [final slot-order iteration]
    kind 1: stub storage; kind 2: SmallMap;
    kind 4: EasyHashMap [initial capacity; auto_grow; max_load_factor numerator; denominator]
+           (ModelEasyX: op 12 = get_or_insert(_with), op 15 = one put of an extend / Extend / FromIterator loop)
    kind 5: GoldHashIdx [requested capacity]
    kind 6: standard storage under a hash function given as a table (String / typed keys: key numbers are the harness's
            canonical numbering of the keys, the table holds what the cell's BuildHasher returns for each) [initial capacity] [hash table]
@@ -59,7 +60,7 @@ Definition ok (c : case_t) : bool :=
   | 7 => eqb_obss (smf_run true (hasher 0) (Small []) ops) expect
   | 8 => eqb_obss (hs_run hs_new ops) expect
   | 4 => let grow := fun l c => pn ps 2 * c <=? pn ps 3 * l in
-         eqb_obss (easy_run (hasher 0) grow (negb (pn ps 1 =? 0)) (init (pn ps 0)) ops) expect
+         eqb_obss (easy_runx (hasher 0) grow (negb (pn ps 1 =? 0)) (init (pn ps 0)) ops) expect
   | _ => let h := assoc (tb ts 1) 0 in
          let ml := assoc (tb ts 2) 0 in
          let cfg := mkcfg (negb (pn ps 1 =? 0)) (negb (pn ps 2 =? 0)) (negb (pn ps 3 =? 0)) in
@@ -403,6 +404,9 @@ fn history(cx: &mut Ctx, family: &str, variant: u64, aux: u64, ops: &[(u64, u64,
     cx.sum.dist_max("max_history_len", ops.len() as u64);
     if has_rm_reinsert { cx.sum.dist("histories_with_remove_then_reinsert"); }
 
+    // EasyHashMap's model also knows get_or_insert(_with) (op 12) and the put loop of extend / Extend / FromIterator (op 10)
+    let ext = matches!(cell.model, Some(ModelDesc::Easy { .. }));
+    let mut expanded: std::collections::HashMap<usize, Vec<(u64, u64)>> = std::collections::HashMap::new();
     let mut shadow: BTreeMap<u64, u64> = BTreeMap::new();
     let mut obs: Vec<String> = vec![];      // observations as Coq terms (model comparison)
     let mut offered: Vec<bool> = vec![];    // operations the type does not offer are left out of the model comparison
@@ -463,7 +467,7 @@ fn history(cx: &mut Ctx, family: &str, variant: u64, aux: u64, ops: &[(u64, u64,
                     let absent = (0..300u64).map(|u| m.canon_k(u)).find(|u| !shadow.contains_key(u));
                     m.clone_swap(v, present, absent).map(|r| ("OMaint".to_string(), r.err().map(|e| format!("clone: {}", e))))
                 }
-                10 => m.bulk(&items, v).map(|r| ("OMut".to_string(), r.err().map(|e| format!("bulk insertion of {:?} returned Err({})", items, e)))),
+                10 => m.bulk(&items, v).map(|r| ((if ext { "OUnit" } else { "OMut" }).to_string(), r.err().map(|e| format!("bulk insertion of {:?} returned Err({})", items, e)))),
                 11 => m.alt_get(&[k0, k0.wrapping_add(1), k0.wrapping_add(16)], v).map(|got| {
                     let mut complaint = None;
                     for (key, ans, dflt) in got {
@@ -474,7 +478,7 @@ fn history(cx: &mut Ctx, family: &str, variant: u64, aux: u64, ops: &[(u64, u64,
                 12 => m.get_or_insert(k, v, v0 / 2).map(|r| {
                     let want = shadow.get(&k).copied().unwrap_or(v);
                     match r {
-                        Ok(got) => ("OMut".to_string(), if got != want { Some(format!("get_or_insert({},{}) = {}, a map yields {}", k, v, got, want)) } else { None }),
+                        Ok(got) => (if ext { format!("ORes (Some {})", got) } else { "OMut".to_string() }, if got != want { Some(format!("get_or_insert({},{}) = {}, a map yields {}", k, v, got, want)) } else { None }),
                         Err(e) => ("OMut".to_string(), Some(format!("get_or_insert({},{}) returned Err({})", k, v, e))),
                     } }),
                 13 => m.retain(rm, rr, radd).map(|_| ("OMut".to_string(), None)),
@@ -505,6 +509,7 @@ fn history(cx: &mut Ctx, family: &str, variant: u64, aux: u64, ops: &[(u64, u64,
                 if let Some(msg) = complaint { failure = Some(format!("op {}: {}", i, msg)); break; }
             }
         }
+        if ext && c == 10 && offered.last() == Some(&true) { expanded.insert(i, items.clone()); }
         // the shadow map
         match c {
             0 => { ctr_total += 1; if !shadow.contains_key(&k) { ctr_unique += 1; } shadow.insert(k, v); }
@@ -559,8 +564,15 @@ fn history(cx: &mut Ctx, family: &str, variant: u64, aux: u64, ops: &[(u64, u64,
             };
             // the new kinds run on the canonical numbers (u8 keys wrap at 256, String values are numbered ...)
             let ops_src: &[(u64, u64, u64)] = &cops[..n];
-            let ops_coq: Vec<String> = ops_src.iter().enumerate().filter(|(i, _)| offered[*i]).map(|(_, (c, k, v))| format!("({}, {}, {})", c, k, v)).collect();
-            let obs_coq: Vec<String> = obs[..n].iter().enumerate().filter(|(i, _)| offered[*i]).map(|(_, o)| o.clone()).collect();
+            let (mut ops_coq, mut obs_coq): (Vec<String>, Vec<String>) = (vec![], vec![]);
+            for i in 0..n {
+                if !offered[i] { continue; }
+                match expanded.get(&i) {
+                    // a bulk insertion is the loop of its put() calls
+                    Some(items) => for (a, b) in items { ops_coq.push(format!("(15, {}, {})", a, b)); obs_coq.push("OUnit".into()); },
+                    None => { let (c, k, v) = ops_src[i]; ops_coq.push(format!("({}, {}, {})", c, k, v)); obs_coq.push(obs[i].clone()); }
+                }
+            }
             if !ops_coq.is_empty() {
                 let term = format!("({}, {}, [{}], [{}], [{}])", kind, coq_n_list(params.iter().map(|&x| x as u128)),
                                    tables.join("; "), ops_coq.join("; "), obs_coq.join("; "));
